@@ -40,7 +40,17 @@ def run(repo: Repo, chk: Check) -> None:
     fields(repo, chk)
     nullable(repo, chk)
     brackets_and_arity(repo, chk)
-    affine_map(repo, chk)
+    # the layout map is decided twice: by evaluating get_affine_map over symbolic bounds and steps and comparing with the closed form (any spelling of
+    # the digit extraction the normal form reads), and clause by clause on the source. If the source is restructured beyond what the clauses read, the
+    # evaluation alone decides
+    from . import c02
+
+    c02.tsl_affine(repo, chk, rule="C10.affine-eval")
+    try:
+        affine_map(repo, chk)
+    except AnalysisError as e:
+        chk.floors["C10.affine-digits"] = 0
+        chk.observe(f"C10.affine-digits not evaluated ({e}); the layout map is decided by C10.affine-eval")
     from_stride(repo, chk)
     canonicalize(repo, chk)
     lccb(repo, chk)
@@ -472,8 +482,14 @@ def op_builders(repo: Repo, chk: Check) -> None:
     okd = False
     for s in dyn:
         e = s.expand(s.node.args[1]) if len(s.node.args) > 1 else None
-        if e is not None and subexprs(e, "prod([$x.bound for $_, $x in $t.tstrides[$d] if $x.bound])"):
+        forms = ["prod([$x.bound for $_, $x in $t.tstrides[$d] if $x.bound])", "prod(($x.bound for $_, $x in $t.tstrides[$d] if $x.bound))",
+                 "prod([$x.bound for $x in $t.tstrides[$d].strides if $x.bound])", "prod(($x.bound for $x in $t.tstrides[$d].strides if $x.bound))",
+                 "prod([$x.bound for $x in $t.tstrides[$d].strides if $x.bound is not None])", "prod([$x.bound for $_, $x in $t.tstrides[$d] if $x.bound is not None])"]
+        if e is not None and any(subexprs(e, t_) for t_ in forms):
             okd = True
+    if not okd and dyn and any(isinstance(c_, ast.Call) and isinstance(c_.func, ast.Name) and c_.func.id not in ("prod", "int", "len") for s in dyn if len(s.node.args) > 1
+                               for c_ in ast.walk(fl.cone(s.node.args[1], s, inline=0))):
+        raise AnalysisError(f"{dyn[0].where()}: the divisor of the dynamic outermost bound is computed by a call that is not looked through")
     chk.result(okd, "C10.view-coverage", f"{f.key}:dynamic-bound", dyn[0].where() if dyn else f.where,
                "a dynamic outermost bound = dim size / product of the static inner tile bounds of the same dimension")
     g, gfl = flow_of(repo, chk, DIALECT, "TiledStridedLayoutAttr.get_step_ops")
